@@ -93,6 +93,21 @@ class C:
 
 Other()
 ''',
+    # two lazily decorated classes whose attributes are typed with EACH OTHER, first used by different threads
+    "mutual_reference": '''
+class C:
+    a: int = Attr(default=3, repr=False)
+    others: List["D"] = Attr(default_factory=list)
+    partner: "D"
+
+class D:
+    z: int = 2
+    back: List["C"] = Attr(default_factory=list)
+    first: "C"
+
+C = spec_class(%(kw)s)(C)
+D = spec_class(%(kw)s)(D)
+''',
     "inherit_collision": '''
 class P:
     a: int = 1
@@ -131,7 +146,7 @@ class C:
 ''',
 }
 KEYED = {"keyed_preparer"}
-SELF_DECORATED = {"shared_decorator"}  # the body writes its own decorators: %(kw)s is 'bootstrap=True' or empty
+SELF_DECORATED = {"shared_decorator", "mutual_reference"}  # the body writes its own decorators: %(kw)s is 'bootstrap=True' or empty
 PARENT_DECORATED = {"inherit_lazy_parent", "inherit_collision", "lazy_parent_with_new"}
 
 PRELUDE = '''
@@ -155,6 +170,14 @@ class Leaf:
 def make_classes(body, eager):
     """fresh namespace with class C (and P) decorated lazily or eagerly"""
     ns = {"__name__": "verif_c19"}
+    if body in ("mutual_reference",):
+        # forward references are resolved in the namespace of the class's MODULE: give these classes a real one
+        import sys
+        import types
+
+        mod = types.ModuleType("verif_c19_forward_refs")
+        sys.modules[mod.__name__] = mod
+        ns = mod.__dict__
     exec(compile(PRELUDE, "<c19-prelude>", "exec", dont_inherit=True), ns)
     deco = "(bootstrap=True)" if eager else ""
     kw = []
@@ -191,7 +214,7 @@ def describe_instance(inst):
 
 
 TRIGGERS = ["instantiate", "instantiate_kw", "spec_class_attr", "dataclass_fields", "dataclasses_fields", "subclass_instantiate", "subclass_meta",
-            "meta_then_helper", "fields_then_helper", "subclass_own_new_instantiate"]
+            "meta_then_helper", "fields_then_helper", "subclass_own_new_instantiate", "instantiate_other"]
 
 
 def trigger(ns, body, name):
@@ -212,6 +235,10 @@ def trigger(ns, body, name):
     if name == "subclass_instantiate":
         Sub = type("Sub", (C,), {})
         return ("inst", describe_instance(Sub(**_ctor_args(body))))
+    if name == "instantiate_other":
+        # the first use of ANOTHER lazily decorated class of the same module (the one C refers to, where there is one)
+        other = ns.get("D", C)
+        return ("inst", describe_instance(other(**(_ctor_args(body) if other is C else {}))), sorted(other.__spec_class__.attrs))
     if name == "subclass_own_new_instantiate":
         # the first use comes through a subclass with a cooperative __new__ of its own (which counts its calls): one
         # instantiation is one call, whether or not the parent still had to be bootstrapped
@@ -656,6 +683,8 @@ def main(run):
     if not quick:
         tasks.append({"part": "threads", "body": "one_attr", "triggers": ["instantiate", "instantiate"], "bound": 2})
     tasks.append({"part": "threads", "body": "one_attr", "triggers": ["instantiate", "instantiate", "meta_then_helper"], "bound": 0 if quick else 1})
+    tasks.append({"part": "threads", "body": "mutual_reference", "triggers": ["instantiate", "instantiate_other"], "bound": 1 if quick else 2})
+    tasks.append({"part": "threads", "body": "mutual_reference", "triggers": ["instantiate_other", "meta_then_helper"], "bound": 1})
     if not quick:
         for b in ("attr_factory", "inherit_lazy_parent"):
             tasks.append({"part": "threads", "body": b, "triggers": ["instantiate", "instantiate"], "bound": 2})
